@@ -219,7 +219,7 @@ func gen(t *rapid.T) Case {
 	n := rapid.IntRange(1, 6).Draw(t, "nRules")
 	for i := 0; i < n; i++ {
 		r := Rule{K: rapid.SampledFrom([]string{"acquire", "acquire", "acquire", "acquire-unknown", "cmd", "cmds", "config", "configs", "interactive", "stall-acquire", "cmd",
-			"cmds-file", "configs-file", "config-unknown-level"}).Draw(t, "rule")}
+			"cmds-file", "configs-file", "config-unknown-level", "reopen"}).Draw(t, "rule")}
 		r.Target = rapid.IntRange(0, len(c.Levels)-1).Draw(t, "target")
 
 		switch r.K {
@@ -452,6 +452,25 @@ func run(c Case) ev.Verdict {
 		case "acquire-unknown":
 			wantErr = util.ErrPrivilegeError
 			opErr = d.AcquirePriv("no-such-level")
+		case "reopen":
+			// the session ends and the same driver opens a new one: the device is back at some
+			// level of its own (r.Target), whatever the driver remembered of the old session
+			if cerr := d.Close(); cerr != nil {
+				return ev.Fail("rule %d reopen: Close: %v", ri, cerr)
+			}
+
+			mode, pw = r.Target, -1
+			fresh := &sim.CLI{NL: "\r\n", Prompt: dev.Prompt, EchoOff: dev.EchoOff, OnLine: dev.OnLine}
+			pipe.Reset(fresh)
+
+			if oerr := d.Open(); oerr != nil {
+				return ev.Fail("rule %d reopen: Open: %v", ri, oerr)
+			}
+
+			v.NonTrivial = true
+			v.Classes = append(v.Classes, "re-opened")
+
+			continue
 		case "stall-acquire":
 			// an earlier operation that fails half way: the device acts on the first transition of
 			// the path and then goes quiet; the operation times out, later the device shows its
